@@ -58,14 +58,34 @@ func funcShortName(fn *ssa.Function) string {
 
 // call wraps callInner with the call-site clauses of the enclosing contract.
 func (ex *Exec) call(fr *Frame, st *State, c *ssa.CallCommon, site ssa.Instruction) *Value {
-	name := ""
-	if c.IsInvoke() {
-		name = ifaceMethodName(c.Value.Type(), c.Method)
-	} else if callee := c.StaticCallee(); callee != nil {
-		name = funcShortName(callee)
-	} else if fn := funcFieldName(c.Value); fn != "" {
-		name = fn
+	name := callName(c)
+	var argVals []*Value
+	if name != "" && ex.discover == nil && len(ex.callSiteClauses(fr, name, ex.prog.callOrdinal(site, name))) > 0 {
+		if c.IsInvoke() {
+			argVals = append(argVals, ex.eval(fr, st, c.Value))
+		}
+		for _, a := range c.Args {
+			argVals = append(argVals, ex.eval(fr, st, a))
+		}
 	}
+	return ex.withCallClauses(fr, st, name, site, argVals, func() *Value { return ex.callInner(fr, st, c, site) })
+}
+
+func callName(c *ssa.CallCommon) string {
+	if c.IsInvoke() {
+		return ifaceMethodName(c.Value.Type(), c.Method)
+	} else if callee := c.StaticCallee(); callee != nil {
+		return funcShortName(callee)
+	} else if fn := funcFieldName(c.Value); fn != "" {
+		return fn
+	}
+	return ""
+}
+
+// withCallClauses checks the contract's call-site requires, runs the call, then
+// applies the call-site assumes and ghost updates.  argVals: receiver (for
+// interface calls) followed by the arguments.
+func (ex *Exec) withCallClauses(fr *Frame, st *State, name string, site ssa.Instruction, argVals []*Value, do func() *Value) *Value {
 	if name != "" && ex.discover == nil {
 		ex.forbidCheck(fr, st, name, site)
 	}
@@ -74,16 +94,11 @@ func (ex *Exec) call(fr *Frame, st *State, c *ssa.CallCommon, site ssa.Instructi
 		clauses = ex.callSiteClauses(fr, name, ex.prog.callOrdinal(site, name))
 	}
 	if len(clauses) == 0 {
-		return ex.callInner(fr, st, c, site)
+		return do()
 	}
 	env := ex.specEnv(fr, st, site.Pos())
-	k := 0
-	if c.IsInvoke() {
-		env.vars["$0"] = ex.eval(fr, st, c.Value)
-		k = 1
-	}
-	for i, a := range c.Args {
-		env.vars[fmt.Sprintf("$%d", i+k)] = ex.eval(fr, st, a)
+	for i, a := range argVals {
+		env.vars[fmt.Sprintf("$%d", i)] = a
 	}
 	what := ex.siteWhat(site)
 	for _, cc := range clauses {
@@ -93,7 +108,7 @@ func (ex *Exec) call(fr *Frame, st *State, c *ssa.CallCommon, site ssa.Instructi
 		}
 	}
 	pre := st.clone()
-	res := ex.callInner(fr, st, c, site)
+	res := do()
 	env.st = st
 	env.old = pre
 	if res != nil {
@@ -732,6 +747,18 @@ func (ex *Exec) runDefers(fr *Frame, st *State, in *ssa.RunDefers) {
 }
 
 func (ex *Exec) execDeferred(fr *Frame, st *State, d *ssa.Defer, args []*Value) {
+	c0 := d.Common()
+	argVals := args
+	if !c0.IsInvoke() {
+		argVals = args[1:]
+	}
+	ex.withCallClauses(fr, st, callName(c0), d, argVals, func() *Value {
+		ex.execDeferredInner(fr, st, d, args)
+		return nil
+	})
+}
+
+func (ex *Exec) execDeferredInner(fr *Frame, st *State, d *ssa.Defer, args []*Value) {
 	c := d.Common()
 	sig := c.Signature()
 	var retT types.Type
@@ -1603,7 +1630,12 @@ func (ex *Exec) getGhost(st *State, name string, t types.Type) *Value {
 	return v
 }
 
-func (ex *Exec) setGhost(st *State, name string, v *Value) { st.ghost[name] = v }
+func (ex *Exec) setGhost(st *State, name string, v *Value) {
+	st.ghost[name] = v
+	if ex.discover != nil {
+		ex.discover.ghosts[name] = true
+	}
+}
 
 var _ = strconv.Itoa
 
